@@ -236,8 +236,12 @@ def malformed(ctx, pop, classes):
             cases.append(("corrupt-kty", dict(base, kty=v)))
         for v in ([], ["sig"], 7, "foo", "SIG", None, True):
             cases.append(("bad-use", dict(base, use=v)))
-        for v in ("sign", ["foo"], [1], 7, None, {"a": 1}):
+        for v in ("sign", ["foo"], [1], 7, None, {"a": 1},
+                  # not a list although everything "in" it is a registered operation (what a subset / iteration test lets through)
+                  "", {}, {"sign": True, "verify": True}, {"sign": "verify"}, [["sign"]], [[]], {"sign"}, frozenset()):
             cases.append(("bad-key_ops", dict(base, key_ops=v)))
+        for v in ({}, {"sig"}, ["s", "i", "g"], {"sig": True}):
+            cases.append(("bad-use", dict(base, use=v)))
         cases.append(("contradictory-use-ops", dict(base, use="sig", key_ops=["encrypt"])))
         cases.append(("contradictory-use-ops", dict(base, use="enc", key_ops=["verify"])))
         # partly contradictory: some operations belong to the declared use, others to the other one
